@@ -257,6 +257,7 @@ func checkC05(c *Ctx) {
 
 	// ---------------- R05e (decided by interpreting the code on concrete values, not by its shape)
 	c05DiscriminatorValues(c, "R05e")
+	c05DiscriminatorValuesSymbolic(c, "R05e")
 	enumTables(c, "R05e")
 
 	c05Consumers(c)
@@ -795,7 +796,79 @@ func enumTables(c *Ctx, rid string) {
 			r.Check(len(bad) == 0, rid, name+": enum "+w.enum+" (some values with enum_value): encoder/decoder tables", pos,
 				fmt.Sprintf("%s for enum %s: %s", name, w.enum, strings.Join(bad, "; ")))
 		}
+		// symbolic side: the only test on a value's custom string is emptiness
+		if ri := c.Root(pkg, "_enum_encoding.pb.go"); ri != nil {
+			ex := c.Explore(ri.Fn, 1, 4000)
+			var other []string
+			nEmpty := 0
+			for _, pt := range ex.Points {
+				if !strings.Contains(pt.Key, "GetEnumValueMapping(") {
+					continue
+				}
+				if strings.HasPrefix(eraseIters(pt.Key), "b:isempty(") {
+					nEmpty++
+				} else {
+					other = append(other, eraseIters(pt.Key))
+				}
+			}
+			r.Check(len(other) == 0 && nEmpty > 0, rid, name+": the custom enum_value is used whenever it is non-empty (no other condition on it)", pos,
+				fmt.Sprintf("the emitter's choice between the custom string and the proto value name depends on %v", other))
+		}
 		_, hasPlain := toJSON["Plain"]
 		r.Check(!hasPlain, rid, name+": an enum without enum_value gets no tables", pos, "tables are emitted for an enum none of whose values carries enum_value: its JSON form would change from the proto3 mapping's")
 	}
+}
+
+// c05DiscriminatorValuesSymbolic: GetOneofDiscriminatorInfo evaluated with the explicit oneof_value left
+// symbolic: the only thing the choice between the explicit value and the proto field name may depend on is
+// whether the explicit value is empty.
+func c05DiscriminatorValuesSymbolic(c *Ctx, rid string) {
+	r := c.R
+	fn := c.P.Func("internal/annotations", "GetOneofDiscriminatorInfo")
+	if fn == nil {
+		return
+	}
+	pos := c.P.Pos(c.P.Decls[fn].Pos())
+	c.W.FollowAnnHelpers = true
+	outs, probs, capped := c.W.EvalAll(fn, nil, true, 256)
+	c.W.FollowAnnHelpers = false
+	if len(probs) > 0 || capped || len(outs) == 0 {
+		r.Undec(rid, "discriminator value choice (symbolic oneof_value)", pos, fmt.Sprintf("outcomes=%d capped=%v problems=%v", len(outs), capped, probs))
+		return
+	}
+	bad := []string{}
+	nDec := 0
+	for _, o := range outs {
+		for _, u := range o.Used {
+			if !strings.Contains(u.Key, "GetOneofVariantValue") {
+				continue
+			}
+			nDec++
+			k := eraseIters(u.Key)
+			if !strings.HasPrefix(k, "b:isempty(") {
+				bad = append(bad, "the choice depends on a test of the explicit value other than emptiness: "+k)
+			}
+		}
+	}
+	sort.Strings(bad)
+	bad = uniqStrings(bad)
+	r.Check(len(bad) == 0 && nDec > 0, rid, "the explicit oneof_value is used whenever it is non-empty (no other condition on it)", pos,
+		fmt.Sprintf("GetOneofDiscriminatorInfo evaluated with a symbolic oneof_value (%d decisions on it in %d outcomes): %s", nDec, len(outs), strings.Join(bad, "; ")))
+}
+
+func uniqStrings(xs []string) []string {
+	var out []string
+	for i, x := range xs {
+		if i == 0 || x != xs[i-1] {
+			out = append(out, x)
+		}
+	}
+	return out
+}
+
+func valKey(v Val) string {
+	if v == nil {
+		return "<nil>"
+	}
+	return v.key()
 }
